@@ -36,11 +36,11 @@ pkgs=$(place_demo) || { res "demo-placement-failed"; exit 1; }
 runargs=""
 for p in $pkgs; do runargs="$runargs ./$p/"; done
 # 1. pristine: demo passes
-go test -vet=off -count=1 -timeout 20m -run 'TestSeedDemo' $runargs >>$log 2>&1 && pristine=pass || pristine=FAIL
+go test -vet=off -count=1 -timeout 20m -run 'Seed' $runargs >>$log 2>&1 && pristine=pass || pristine=FAIL
 # 2. apply patch
 P=$src/patch.diff; [ -f $src/patch.ported.diff ] && P=$src/patch.ported.diff; git apply $P >>$log 2>&1 || { res "patch-does-not-apply pristine-demo=$pristine"; exit 1; }
 go build ./... >>$log 2>&1 || { res "mutant-does-not-build"; exit 1; }
-go test -vet=off -count=1 -timeout 20m -run 'TestSeedDemo' $runargs >>$log 2>&1 && mutdemo=PASS || mutdemo=fail
+go test -vet=off -count=1 -timeout 20m -run 'Seed' $runargs >>$log 2>&1 && mutdemo=PASS || mutdemo=fail
 # 3. unedited suite with the mutant (demo removed)
 for p in $pkgs; do rm -f $wt/$p/zz_seed_demo_test.go; done
 go test -vet=off -count=1 -timeout 25m -p 3 ./... >>$log 2>&1 && suite=pass || suite=FAIL
